@@ -114,6 +114,14 @@ for _n, _f in {
     PRIMS[_n] = _unary_f(_f)
 
 
+@prim("cbrt")
+def _cbrt(ctx, eqn, ins):
+    # definitional normal form: sign(x) * |x| ** (1/3), the exponent rounded to the operand dtype
+    x = ins[0]
+    e = float(np.asarray(1.0 / 3.0, dtype=x.dtype if x.dtype.kind == "f" else np.float32))
+    return [S.map1(lambda a: S.f_mul(S.f_sign(a), S.f_pow(S.f_abs(a), e)), x)]
+
+
 @prim("round")
 def _round(ctx, eqn, ins):
     m = eqn.params.get("rounding_method")
